@@ -31,17 +31,35 @@ def item_trees():
     leaf_u = st.sampled_from(["none", "empty", "raise"])
 
     def node(children):
-        elem = st.one_of(st.just("FRAME"), st.just("FRAME"), children, st.none())
+        # "GEN": a suspended generator / coroutine / async generator OBJECT whose frame may carry an elaborate_frame
+        # result that redirects the trace (replace / bare replace / insert) into a sub-tree or another such object
+        gen = st.one_of(st.just(["none"]), st.just(["none"]),
+                        st.tuples(st.sampled_from(["replace", "replace1", "insert", "insert"]),
+                                  st.one_of(children, st.just("GEN"))).map(list))
+        elem = st.one_of(st.just("FRAME"), gen.map(lambda e: {"gen": e}), gen.map(lambda e: {"gen": e}), children, st.none())
         return st.fixed_dictionaries({"u": st.sampled_from(["tuple", "list", "iter", "one"]),
                                       "elems": st.lists(elem, min_size=0, max_size=3)})
     base = st.one_of(leaf_u.map(lambda u: {"u": u, "elems": []}),
-                     st.lists(st.sampled_from(["FRAME", None]), min_size=0, max_size=3).map(
+                     st.lists(st.sampled_from(["FRAME", {"gen": ["none"]}, {"gen": ["replace1", "GEN"]},
+                                               {"gen": ["insert", "GEN"]}, None]), min_size=0, max_size=3).map(
                          lambda xs: {"u": "tuple", "elems": xs}))
     return st.recursive(base, node, max_leaves=8)
 
 
 def number_items(shape):
-    ctr = {"f": 0, "i": 0}
+    ctr = {"f": 0, "i": 0, "g": 0}
+    elab16 = {}
+
+    def gen(e):
+        if ctr["g"] >= 24:
+            return None
+        idx = ctr["g"]
+        ctr["g"] += 1
+        if e[0] != "none":
+            sub = gen(["none"]) if e[1] == "GEN" else walk(e[1])
+            if sub is not None:
+                elab16[str(idx)] = [e[0], [sub]]
+        return {"g": idx}
 
     def walk(s):
         ctr["i"] += 1
@@ -56,6 +74,10 @@ def number_items(shape):
                 if ctr["f"] < 40:
                     ch.append({"f": ctr["f"]})
                     ctr["f"] += 1
+            elif "gen" in e:
+                n = gen(e["gen"])
+                if n is not None:
+                    ch.append(n)
             else:
                 ch.append(walk(e))
         u = s["u"]
@@ -65,7 +87,8 @@ def number_items(shape):
             u = "tuple"
         return {"name": name, "u": u, "ch": ch}
 
-    return {"root": walk(shape)}
+    root = walk(shape)
+    return {"root": root, "elab16": elab16}
 
 
 def check_items(ws, interps, case, out):
@@ -73,7 +96,7 @@ def check_items(ws, interps, case, out):
     info = {}
     for interp in interps:
         try:
-            res = ws[interp].request({"op": "hooks.c16", "root": case["root"]})
+            res = ws[interp].request({"op": "hooks.c16", "root": case["root"], "elab16": case.get("elab16")})
         except WorkerDied as ex:
             viols.append({"desc": "interpreter %s died (exit %r)" % (interp, ex.returncode), "interp": interp})
             continue
@@ -84,7 +107,12 @@ def check_items(ws, interps, case, out):
     classes = ["items", "items.frames" if info.get("frames") else "items.no_frames"]
     if info.get("error"):
         classes.append("items.unwrap_error")
-    out.note_case(case, (not info.get("frames")) or info.get("error"), classes=classes, n_eval=len(interps))
+    if info.get("owned"):
+        classes.append("items.suspended_object")
+    if info.get("owned_after_redirect"):
+        classes.append("items.suspended_object_reached_through_elaborate_frame_redirect")
+    out.note_case(case, (not info.get("frames")) or info.get("error") or info.get("owned_after_redirect"),
+                  classes=classes, n_eval=len(interps))
     return viols
 
 
